@@ -21,10 +21,13 @@ def processCase (mode : String) (pid : String) (header : String) (lines : List S
         out := out ++ "\n  witness: " ++ " ; ".intercalate (wit.map reprLabel) ++ "\n"
     | .rejected k l f =>
       out := out ++ s!"actor={sp.a} accept=rejected@{k}:{reprLabel l}:frontier={f} "
-    match runMonitor pid sp.cfg ls with
-    | some none => out := out ++ s!"monitor=ok "
-    | some (some k) => out := out ++ s!"monitor=violation@{k}:{reprLabel (ls.getD k (.quiescent []))} "
-    | none => pure ()
+    let ctx : MonCtx := { cfg := sp.cfg, h0 := sp.h, k0 := sp.hk, prompt := (header.splitOn "prompt=1").length > 1 }
+    let pids := if pid == "all" then allMonitors else pid.splitOn ","
+    for q in pids do
+      match runMonitor q ctx ls with
+      | some none => out := out ++ s!"monitor[{q}]=ok "
+      | some (some k) => out := out ++ s!"monitor[{q}]=violation@{k}:{reprLabel (ls.getD k (.quiescent []))} "
+      | none => pure ()
   IO.println out
 
 partial def loop (mode : String) (pid : String) (h : IO.FS.Stream) (header : Option String) (acc : Array String) : IO Unit := do
